@@ -583,7 +583,7 @@ def run(chk, p, t):
         "the job identity field of each result class (JOB_KEY table) is in 1-1 correspondence with the enqueue loop variable",
     ]
     ea = EffectAnalysis(p, t)
-    for fn in (rule_r1, rule_r2, rule_r3, rule_r4, rule_r5):
+    for fn in (rule_r1, rule_r2, rule_r3, rule_r4, rule_r5, rule_r6):
         rid = "C08.R" + fn.__name__[-1]
         if not chk.wants(rid):
             continue
@@ -725,3 +725,169 @@ def rule_r5(chk, p, t, ea):
     else:
         r.ok("executors", f"{len(subs)} executors each run their own remote function", je.loc())
     _ = regs
+
+
+# ====================================================================== R6
+_INDEX_CALLS = {"where", "nonzero", "flatnonzero", "argwhere"}
+
+
+def rule_r6(chk, p, t, ea):
+    r = chk.rule(
+        "C08.R6",
+        "every tasked sensor-target pair is handed to a task-execution job",
+        3,
+        "in assess() the task-execution jobs are built from the stored decision matrix: one loop over every target row, "
+        "the tasked sensors of a row are the indices of its non-zero entries, a job is submitted whenever that index set is "
+        "NON-EMPTY (a test on its length / size - never on the truth of the index values, which is false for column 0), "
+        "for that row's own target, with the handles of all those sensors in the matrix's column order",
+        "what the job then does with the pair (R1-R5, C02)",
+    )
+    eng = p.cls("resonaate.tasking.engine.centralized_engine.CentralizedTaskingEngine")
+    m = eng.methods.get("assess")
+    pm = parents_map(m.node)
+
+    def one():
+        sites = [c for c in walk_no_nested(m.node) if isinstance(c, ast.Call) and call_name(c) == "TaskExecutionRegistration"]
+        require(len(sites) == 1, "one TaskExecutionRegistration construction expected in assess", m.node)
+        site = sites[0]
+        loops = [a for a in _ancestors(site, pm) if isinstance(a, ast.For)]
+        require(loops, "the task-execution job is not built in a loop over targets", site)
+        lp = loops[-1] if len(loops) == 1 else loops[-1]
+        bad = []
+        # --- the loop covers every target row
+        it = unparse(lp.iter)
+        tgt_names = [x.id for x in ast.walk(lp.target) if isinstance(x, ast.Name)]
+        if it == "self.target_indices.items()" and len(tgt_names) == 2:
+            tid, row = tgt_names
+        elif it in ("enumerate(self.target_list)",) and len(tgt_names) == 2:
+            row, tid = tgt_names
+        else:
+            raise Undecided(f"assess: the job loop iterates `{it}` (expected self.target_indices.items() or enumerate(self.target_list))", lp)
+        r.ok(m.qualname + ":rows", f"one iteration per target row: `{it}`", m.loc(lp))
+        # --- index set of the row
+        defs = {}
+        for n in ast.walk(lp):
+            if isinstance(n, ast.Assign) and len(n.targets) == 1 and isinstance(n.targets[0], ast.Name):
+                defs.setdefault(n.targets[0].id, []).append(n.value)
+
+        col_seen = []
+
+        def row_expr(e):
+            """True iff e is the row `row` of self.decision_matrix."""
+            if isinstance(e, ast.Subscript) and unparse(e.value) == "self.decision_matrix":
+                s = e.slice
+                if isinstance(s, ast.Tuple) and len(s.elts) == 2 and unparse(s.elts[1]) == row and unparse(s.elts[0]) in (":", "slice(None)"):
+                    col_seen.append(unparse(e))
+                    return True
+                if isinstance(s, ast.Tuple) and len(s.elts) == 2:
+                    return unparse(s.elts[0]) == row and unparse(s.elts[1]) in (":", "slice(None)")
+                return unparse(s) == row
+            return False
+
+        def index_kind(e, depth=0):
+            """'idx' when e is the array of column indices of the non-zero entries of this target's row,
+            'mask' for the row itself (boolean per sensor), None otherwise."""
+            if depth > 4:
+                return None
+            if isinstance(e, ast.Name) and len(defs.get(e.id, [])) == 1:
+                return index_kind(defs[e.id][0], depth + 1)
+            if row_expr(e):
+                return "mask"
+            if isinstance(e, ast.Subscript) and isinstance(e.value, ast.Call) and call_name(e.value) in ("where", "nonzero") and unparse(e.slice) == "0" and e.value.args and len(e.value.args) == 1 and row_expr(e.value.args[0]):
+                return "idx"
+            if isinstance(e, ast.Call) and call_name(e) == "flatnonzero" and len(e.args) == 1 and row_expr(e.args[0]):
+                return "idx"
+            return None
+
+        # --- guard of the submission
+        guards = [a for a in _ancestors(site, pm) if isinstance(a, ast.If) and lp in _ancestors(a, pm)]
+        in_body = lambda g: any(site is x or site in ast.walk(x) for x in g.body)  # noqa: E731
+        g_ok = True
+        gbad = []
+        for g in guards:
+            tst = g.test
+            pos = in_body(g)
+            verdict = None  # True = emptiness test with the right polarity
+            # len(X) > 0 / len(X) != 0 / len(X) >= 1 / X.size > 0 ; truthiness of len(X) / X.size
+            def size_of(e):
+                if isinstance(e, ast.Call) and call_name(e) == "len" and len(e.args) == 1:
+                    return e.args[0]
+                if isinstance(e, ast.Attribute) and e.attr == "size":
+                    return e.value
+                if isinstance(e, ast.Call) and call_name(e) == "count_nonzero" and len(e.args) == 1 and index_kind(e.args[0]) == "mask":
+                    return e.args[0]
+                return None
+
+            neg = False
+            while isinstance(tst, ast.UnaryOp) and isinstance(tst.op, ast.Not):
+                neg, tst = not neg, tst.operand
+            if isinstance(tst, ast.Compare) and len(tst.ops) == 1 and isinstance(tst.comparators[0], ast.Constant):
+                sz = size_of(tst.left)
+                c = tst.comparators[0].value
+                op = type(tst.ops[0])
+                nonempty = (op is ast.Gt and c == 0) or (op is ast.NotEq and c == 0) or (op is ast.GtE and c == 1)
+                empty = (op is ast.Eq and c == 0) or (op is ast.Lt and c == 1) or (op is ast.LtE and c == 0)
+                if sz is not None and index_kind(sz) in ("idx", "mask") and (nonempty or empty):
+                    is_nonempty_test = nonempty != neg
+                    verdict = is_nonempty_test == pos
+                elif sz is not None and index_kind(sz) in ("idx", "mask") and isinstance(c, int) and op in (ast.Gt, ast.GtE, ast.Lt, ast.LtE, ast.Eq, ast.NotEq):
+                    gbad.append(f"the submission is guarded by `{unparse(g.test)}`: the size of the row's tasked set is compared with {c}, not tested for emptiness - rows with some numbers of tasked sensors get no job")
+                    g_ok = False
+                    continue
+            elif size_of(tst) is not None and index_kind(size_of(tst)) in ("idx", "mask"):
+                verdict = (not neg) == pos
+            elif isinstance(tst, ast.Call) and call_name(tst) in ("any",) and ((isinstance(tst.func, ast.Attribute) and index_kind(tst.func.value) is not None) or (tst.args and index_kind(tst.args[0]) is not None)):
+                k = index_kind(tst.func.value) if isinstance(tst.func, ast.Attribute) else index_kind(tst.args[0])
+                if k == "mask":
+                    verdict = (not neg) == pos
+                else:
+                    gbad.append(f"the submission is guarded by `{unparse(g.test)}`: any() of the array of tasked column INDICES is false when the only tasked sensor is column 0 - that pair gets no job, hence no observation, no miss and no pointing update")
+                    g_ok = False
+                    continue
+            elif index_kind(tst) == "idx":
+                gbad.append(f"the submission is guarded by the truth value of the index array `{unparse(g.test)}`: false for the single index 0 (and an error for several)")
+                g_ok = False
+                continue
+            if verdict is None:
+                raise Undecided(f"assess: guard `{unparse(g.test)}` of the task-execution submission is not a recognised emptiness test of the row's tasked-sensor indices", g)
+            if not verdict:
+                gbad.append(f"the submission is guarded by `{unparse(g.test)}` with the wrong polarity: rows WITH a tasked sensor get no job")
+                g_ok = False
+        if gbad:
+            r.violation(m.qualname + ":guard", "job-guard:" + ";".join(b[:70] for b in gbad), "assess(): " + "; ".join(gbad), m.loc(site))
+        elif g_ok:
+            r.ok(m.qualname + ":guard", "a job is submitted iff the row has a tasked sensor (emptiness test)" if guards else "a job is submitted for every row", m.loc(site))
+        # --- the job's target and sensors
+        args = site.args
+        require(len(args) == 4, "TaskExecutionRegistration(registrant, estimate, target store, sensors) expected", site)
+        if unparse(args[1]) != f"self._estimate_store[{tid}]":
+            bad.append(f"the job's target is `{unparse(args[1])}`, not this row's own target `self._estimate_store[{tid}]`")
+        sens = args[3]
+        ok_s = False
+        if isinstance(sens, ast.ListComp) and len(sens.generators) == 1 and not sens.generators[0].ifs:
+            gen = sens.generators[0]
+            v = gen.target.id if isinstance(gen.target, ast.Name) else None
+            src = gen.iter
+            while isinstance(src, ast.Name) and len(defs.get(src.id, [])) == 1:
+                src = defs[src.id][0]
+            # sensor_num_array[idx]  with sensor_num_array = array(self.sensor_list)
+            ids_ok = False
+            if isinstance(src, ast.Subscript) and index_kind(src.slice) in ("idx", "mask"):
+                base = src.value
+                mdefs = {n.targets[0].id: n.value for n in walk_no_nested(m.node) if isinstance(n, ast.Assign) and isinstance(n.targets[0], ast.Name)}
+                while isinstance(base, ast.Name) and base.id in mdefs:
+                    base = mdefs[base.id]
+                if unparse(base) in ("array(self.sensor_list)", "asarray(self.sensor_list)", "self.sensor_list"):
+                    ids_ok = True
+            if ids_ok and v and unparse(sens.elt) == f"self._sensor_store[{v}]":
+                ok_s = True
+        if not ok_s:
+            bad.append(f"the job's sensors `{unparse(sens)[:80]}` are not the handles of sensor_list[all non-zero columns of the row]")
+        if col_seen:
+            bad.append(f"the tasked sensors are read from `{col_seen[0]}`: that is a COLUMN of the (targets x sensors) decision matrix indexed by the target's row number - the targets of one sensor, not the sensors of this target")
+        if bad:
+            r.violation(m.qualname + ":job", "job-coverage:" + ";".join(b[:60] for b in bad), "assess(): " + "; ".join(bad), m.loc(site))
+        else:
+            r.ok(m.qualname + ":job", "job(target of the row, handles of every tasked column in column order)", m.loc(site))
+
+    r.guard(m.qualname, one)
